@@ -623,6 +623,30 @@ fn gen_deep_chain(depth: usize, tail_unnamed: bool) -> MMappings {
 	MMappings { ns: vec![cps_str("official"), cps_str("named")], doc: None, classes }
 }
 
+/// Round 5: `n` namespaces, target index `t`: a fixed forest (classes in packages, a chain of depth 2, siblings, a
+/// second tree) in which every non-first column holds names that differ from column to column, so that reading the
+/// outer class's name from, or writing the result into, ANOTHER column than the chosen one is visible.  Variants:
+/// 0 all names present; 1 every column except `t` absent on the nested classes; 2 column `t` absent on a leaf;
+/// 3 column `t` absent on an outer class (must fail) while every other column has it; 4 the same as 0, innermost
+/// first; 5 top-level target names whose simple name starts with `$` (com/sun/proxy/$Proxy7, $Proxy8: NOT inner
+/// class names - contraction must leave them alone).
+fn gen_grid(n: usize, t: usize, v: usize) -> MMappings {
+	const SRC: [&str; 8] = ["p/A", "p/A$B", "p/A$B$C", "p/A$D", "q/E", "F", "F$G", "F$G$1"];
+	let mut classes: Vec<MClass> = vec![];
+	for (k, src) in SRC.iter().enumerate() {
+		let nested = src.contains('$');
+		let mut names: NamesRow = vec![Some(cps_str(src))];
+		for j in 1..n {
+			let name = if nested { format!("c{j}k{k}") } else if v == 5 && j == t { if k % 2 == 0 { format!("com/sun/proxy/$Proxy{k}") } else { format!("$Proxy{k}") } } else { format!("r{j}/T{j}k{k}") };
+			let absent = match v { 1 => nested && j != t, 2 => j == t && *src == "p/A$B$C", 3 => j == t && *src == "p/A", _ => false };
+			names.push(if absent { None } else { Some(cps_str(&name)) });
+		}
+		classes.push(MClass { names, doc: None, fields: vec![], methods: vec![] });
+	}
+	if v == 4 { classes.reverse(); }
+	MMappings { ns: NSNAMES[..n].iter().map(|s| cps_str(s)).collect(), doc: None, classes }
+}
+
 const WEIRD_SRC: [&str; 16] = ["A$", "$B", "A$$B", "a/$B", "a$b/C", "A$B$", "$", "$$", "a/b$c/D$E", "A$B/C$D", "/A$B", "A/", "A$1", "A$1$2", "a/A$B$C", "A$ $B"];
 
 // ---------------------------------------------------------------------------------------------
@@ -647,7 +671,7 @@ pub fn run(ctx: &Ctx) -> anyhow::Result<Report> {
 	r.shard_size = 120;
 	let mut rng = Rng::new(ctx.seed);
 	let mut seen = Seen::default();
-	r.rule = "Mapping sets with 1..5 namespaces (mostly 2..4), target namespace at every index (non-first for the valid streams), source names forming forests of $-nested classes of depth 0..4 (deeper in the exhaustive chain), outer classes in packages, absent names in every non-first namespace, with and without members/comments, classes in shuffled insertion order. Streams: exhaustive (every sub-chain of A, A$B, .. A$B$C$D$E x every assignment of {absent, simple, package+dollar name} to the second namespace), ok (all hypotheses), broken (an outer class removed or unnamed), nonsimple (simple_names violated), weird-src (source names with misplaced $ and /), ns0 (first namespace), unknown-ns / duplicate namespace names, n1 (one namespace), mapmodel (shared generator, names with packages), fixture (the repository's test); round 4: twin-branches (2-3 branches of depth 3-5 whose classes carry level by level EQUAL names in the target namespace, roots' target names differing or equal too, listed outer-first / inner-first / shuffled), flat-source-nested-target (source names that are not nested — flat, leading `$`, `$` in the package part — under target names that are: org/example/Outer$Inner, O$I$J, $I, O$ ...), extended-again (the implementation's own extension extended once more: must succeed), deep-chain (one chain of depth 24..56, thorough 96, innermost class first; a crumb is written before every call so that a death inside the recursive parent lookup is reported with its input), frame probes (a class that is nobody's outer class removed / unnamed / renamed / moved / an unrelated class added: every other class must come out as before), contraction applied twice (idempotent, result never splittable), valid object class names in => valid names out (ObjClassName::check_valid on the chosen column before and after both calls), get_simple_name / check_valid / as_class_name on every name seen. Oracle on the implementation: independent iterative reference extension and contraction, failure iff the reference fails (extend on the FIRST namespace: must fail when there are classes; on a set without classes Err and Ok-unchanged are both accepted — outside the property's quantifier), contract(extend(M)) == M whenever simple_names holds, IndexMap keys still in sync. An input is non-trivial when at least one class with a nested source name has a name in the target namespace; distinct by (namespace, canonical Gallina text).".into();
+	r.rule = "Mapping sets with 1..5 namespaces (mostly 2..4), target namespace at every index (non-first for the valid streams), source names forming forests of $-nested classes of depth 0..4 (deeper in the exhaustive chain), outer classes in packages, absent names in every non-first namespace, with and without members/comments, classes in shuffled insertion order. Streams: exhaustive (every sub-chain of A, A$B, .. A$B$C$D$E x every assignment of {absent, simple, package+dollar name} to the second namespace), ok (all hypotheses), broken (an outer class removed or unnamed), nonsimple (simple_names violated), weird-src (source names with misplaced $ and /), ns0 (first namespace), unknown-ns / duplicate namespace names, n1 (one namespace), mapmodel (shared generator, names with packages), fixture (the repository's test); round 5: ns-grid (n = 2, 3, 4 namespaces x EVERY chosen non-first index, in both tiers: a fixed forest whose columns carry pairwise different names, all present / only the chosen column present on nested classes / chosen column absent on a leaf / absent on an outer class (must fail although the other columns have it) / innermost first / top-level target names with a leading `$` in the simple name such as com/sun/proxy/$Proxy7); round 4: twin-branches (2-3 branches of depth 3-5 whose classes carry level by level EQUAL names in the target namespace, roots' target names differing or equal too, listed outer-first / inner-first / shuffled), flat-source-nested-target (source names that are not nested — flat, leading `$`, `$` in the package part — under target names that are: org/example/Outer$Inner, O$I$J, $I, O$ ...), extended-again (the implementation's own extension extended once more: must succeed), deep-chain (one chain of depth 24..56, thorough 96, innermost class first; a crumb is written before every call so that a death inside the recursive parent lookup is reported with its input), frame probes (a class that is nobody's outer class removed / unnamed / renamed / moved / an unrelated class added: every other class must come out as before), contraction applied twice (idempotent, result never splittable), valid object class names in => valid names out (ObjClassName::check_valid on the chosen column before and after both calls), get_simple_name / check_valid / as_class_name on every name seen. Oracle on the implementation: independent iterative reference extension and contraction, failure iff the reference fails (extend on the FIRST namespace: must fail when there are classes; on a set without classes Err and Ok-unchanged are both accepted — outside the property's quantifier), contract(extend(M)) == M whenever simple_names holds, IndexMap keys still in sync. An input is non-trivial when at least one class with a nested source name has a name in the target namespace; distinct by (namespace, canonical Gallina text).".into();
 
 	r.notes.push("contract_inner_class_names on the FIRST namespace used to rewrite the node names and leave the IndexMap keys stale (found by the key-sync oracle of this harness on the repository's own fixture); repaired by /repo commit 4d8ec0a (`fix: contract_inner_class_names refuses the first namespace`), the model follows the repaired code; the ns0 stream re-checks it on every run".into());
 	r.notes.push("correspondence cases are sent in compact form (CRun): the harness verifies cell by cell that the implementation's result is the input with only the chosen namespace column of the class rows replaced, sends that column, and Coq rebuilds the full mapping set and compares it in full with the model's result; every 8th-10th input and every input where that verification fails is sent in full (CExtend/CContract)".into());
@@ -770,6 +794,14 @@ pub fn run(ctx: &Ctx) -> anyhow::Result<Report> {
 			through(&mut r, &mut seen, "deep-chain", &m, &cps_str("named"), false);
 		}
 	}
+	// 5b. round 5: every (number of namespaces, chosen namespace index) with n = 2, 3, 4 - in BOTH tiers - on the grid forest
+	for n in 2..=4usize { for t in 1..n { for v in 0..6usize {
+		let m = gen_grid(n, t, v);
+		let name = m.ns[t].clone();
+		r.count(&format!("grid:namespaces={n},target_index={t}"));
+		through(&mut r, &mut seen, "ns-grid", &m, &name, v == 0 || v == 3);
+		if v == 0 { again(&mut r, &mut seen, &m, &name); }
+	} } }
 	// 6. split / join on the names that occurred
 	seen.strings.sort(); seen.strings.dedup();
 	rng.shuffle(&mut seen.strings);
